@@ -248,7 +248,11 @@ class DefaultOpenFlowHandlers (OpenFlowHandlers):
     con.ports._reset()
     con.dpid = msg.datapath_id # Check this
 
-    con.ofnexus._connect(con) #FIXME: Should this be here?
+    # Refresh our registration, but don't displace a newer connection from
+    # the same datapath (or resurrect a connection that is already gone)
+    if (not con.disconnected and
+        con.ofnexus.getConnection(con.dpid) in (None, con)):
+      con.ofnexus._connect(con)
     e = con.ofnexus.raiseEventNoErrors(FeaturesReceived, con, msg)
     if e is None or e.halt != True:
       con.raiseEventNoErrors(FeaturesReceived, con, msg)
